@@ -109,6 +109,41 @@ def walk_block(b, f, fs=None):
     if tl is not None:
         walk_expr(tl, f, fs)
 
+def normalize_stmts(stmts):
+    """value-less blocks (loop bodies, branches of an `if` in statement position): the tail expression becomes a statement"""
+    def unit_block(b):
+        st, tl = block_parts(b)
+        st = normalize_stmts(st)
+        if tl is not None:
+            st = st + normalize_stmts([("expr", tl)])
+        return (st, None)
+    def unit_if(e):
+        el = e[3]
+        if el is not None:
+            s2, t2 = block_parts(el)
+            if not s2 and t2 is not None and t2[0] == "if":
+                el = ([("expr", unit_if(t2))], None)
+            else:
+                el = unit_block(el)
+        return ("if", e[1], unit_block(e[2]), el)
+    out = []
+    for s in stmts:
+        k = s[0]
+        if k == "for":
+            out.append((k, s[1], s[2], unit_block(s[3])))
+        elif k == "while":
+            out.append((k, s[1], unit_block(s[2])))
+        elif k == "loop":
+            out.append((k, unit_block(s[1])))
+        elif k == "expr" and s[1][0] == "if":
+            out.append((k, unit_if(s[1])))
+        elif k == "expr" and s[1][0] == "block":
+            b = unit_block((s[1][1], s[1][2]))
+            out.append((k, ("block", b[0], None)))
+        else:
+            out.append(s)
+    return out
+
 def strip(e):
     while e[0] == "paren":
         e = e[1]
@@ -328,7 +363,8 @@ class JFile:
                 if head not in ("inline", "allow", "doc", "rustfmt", "warn", "deny", "must_use"):
                     raise Unsupported(f"attribute #[{toks_text(toks[j + 1:c])[:60]}] inside a function body (conditional compilation is not modelled)")
         rsfront._expansion_counter[0] = 0
-        return rsfront.parse_body(toks, self.macros)
+        st, tl = rsfront.parse_body(toks, self.macros)
+        return normalize_stmts(st), tl
 
     def struct_shape(self, name, want, lean):
         fs = self.f.structs.get(name)
